@@ -40,7 +40,7 @@ type Case struct {
 
 func hardClass(op projsim.Op) bool {
 	switch op.Kind {
-	case "dir-rename", "dep-add", "dep-del", "gen-del", "src-del", "src-add", "helper-const", "helper-code", "flag":
+	case "dir-rename", "dep-add", "dep-del", "gen-del", "src-del", "src-add", "helper-const", "helper-code", "flag", "const-alias":
 		return true
 	case "const":
 		var n int
